@@ -124,6 +124,37 @@ def slice_guards(uni, c, fn, keep):
     return out
 
 
+def slice_range(uni, c, fn, rng):
+    """MECHANICAL STATEMENT RANGE: only the top-level statements from the
+    last one whose text starts with rng[0] up to (excluding) the last one
+    whose text starts with rng[1] are executed; everything the range reads
+    from earlier statements is an arbitrary entry state (parameters and
+    heap).  The postconditions then describe the state where the range
+    ends; that the dropped tail does not touch the attributes named in
+    c.range_frame is checked syntactically here."""
+    import ast
+    texts = [ast.unparse(s) for s in fn.body]
+    try:
+        b = max(i for i, t in enumerate(texts) if t.startswith(rng[1]))
+        a = max(i for i, t in enumerate(texts)
+                if i < b and t.startswith(rng[0]))
+    except (StopIteration, ValueError):
+        raise Unsupported(f"statement range {rng} not found in {c.name}")
+    for t in texts[b:]:
+        for attr in getattr(c, "range_frame", ()):
+            if attr in t:
+                raise Unsupported(
+                    f"{c.name}: '{attr}' is used after the verified "
+                    f"statement range")
+    uni.note_assumption(
+        f"{c.name}: verified on a mechanical statement range of the real "
+        f"body (lines {fn.body[a].lineno}-{fn.body[b].lineno - 1}); the "
+        f"{a} statements before it only determine the entry state (taken "
+        f"as arbitrary), the {len(texts) - b} statements after it do not "
+        f"mention {list(getattr(c, 'range_frame', ()))} (checked)")
+    return fn.body[a:b]
+
+
 def run_path(uni, it, c, fn, info, key, rep):
     st = State()
     st.heap_sorts = {}
@@ -167,6 +198,9 @@ def run_path(uni, it, c, fn, info, key, rep):
     it.entry_z3 = {n: v.e for n, v in entry_env.items() if hasattr(v, "e")}
     outcome, value = "return", NONE
     body = fn.body
+    rng = getattr(c, "stmt_range", None)
+    if rng is not None:
+        body = slice_range(uni, c, fn, rng)
     keep = getattr(c, "keep_guards", None)
     if keep is not None:
         body = slice_guards(uni, c, fn, keep)
